@@ -79,6 +79,7 @@ type secState struct {
 	seen      map[uint64]struct{}
 	completed int // deviation bound completed
 	capped    bool
+	stopped   bool // exploration ended early (deadline, violation limit): the current bound was NOT completed
 	maxDepth  int
 	extra     map[string]int64
 }
@@ -386,11 +387,13 @@ func (r *Run) explore(ss *secState, bound int) {
 				if !r.deadline.IsZero() && time.Now().After(r.deadline) {
 					stop = true
 					ss.capped = true
+					ss.stopped = true
 				}
 				r.mu.Lock()
 				if len(r.violations) >= 200 {
 					stop = true
 					ss.capped = true
+					ss.stopped = true
 				}
 				r.mu.Unlock()
 				mu.Unlock()
@@ -540,9 +543,37 @@ func Main(prop, level, rule string, sections []Section) {
 		if ss.sec.Bound < 0 {
 			r.explore(ss, -1)
 		} else {
-			// the exploration at bound B contains all executions of smaller bounds
-			r.explore(ss, ss.sec.Bound)
-			ss.completed = ss.sec.Bound
+			// Iterative bounding: every smaller bound first (cheap next to the last one: the exploration at bound B
+			// contains all executions of the smaller bounds), into scratch statistics. The first counterexample then
+			// has the fewest deviations, and a run that hits its deadline inside the last bound still reports the bound
+			// it COMPLETED (-1: not even the default execution).
+			ss.completed = -1
+			nviol := func() int { r.mu.Lock(); defer r.mu.Unlock(); return len(r.violations) }
+			v0, done := nviol(), false
+			adopt := func(sc *secState) {
+				ss.leaves, ss.evals, ss.nontriv, ss.outcomes, ss.samples, ss.seen = sc.leaves, sc.evals, sc.nontriv, sc.outcomes, sc.samples, sc.seen
+				ss.capped, ss.stopped, ss.maxDepth, ss.extra = sc.capped, sc.stopped, sc.maxDepth, sc.extra
+			}
+			for b := 0; b < ss.sec.Bound && !done; b++ {
+				sc := &secState{sec: ss.sec, outcomes: map[string]int64{}, seen: map[uint64]struct{}{}, extra: map[string]int64{}}
+				r.explore(sc, b)
+				if !sc.stopped {
+					ss.completed = b
+				}
+				if sc.stopped || nviol() > v0 {
+					adopt(sc) // out of time, or the minimal counterexample is in hand: the larger bounds are not run
+					if !sc.stopped {
+						ss.capped = true
+					}
+					done = true
+				}
+			}
+			if !done {
+				r.explore(ss, ss.sec.Bound)
+				if !ss.stopped {
+					ss.completed = ss.sec.Bound
+				}
+			}
 		}
 		fmt.Printf("[%s] section %-28s leaves=%d evals=%d nontrivial=%d outcomes=%d %.1fs%s\n", prop, ss.sec.Name,
 			ss.leaves, ss.evals, ss.nontriv, len(ss.outcomes), time.Since(t0).Seconds(), map[bool]string{true: " CAPPED", false: ""}[ss.capped])
